@@ -136,3 +136,105 @@ Example C07_nonvacuous :
   agg_run nv_sl nv_gb nv_fs nv_base =
     Ok [[VInt 2; VInt 1; VInt 23; VInt 1; VInt 23]; [VInt 2; VInt 12; VInt 3; VInt 1; VInt 3]; [VInt 1; VInt 1; VInt 2; VInt 0; VInt 2]].
 Proof. vm_compute. split; reflexivity. Qed.
+
+(* ====================================================================================================
+   ORACLE vs. THEOREM (Proofs/SelectOracle.v). The correspondence run judges what Go returned with
+   sm_c07 (Spec/SelectObs.v): on an aggregate query without LIMIT / OFFSET whose input (FROM: any join tree,
+   then WHERE: agg_input) is defined and agg_typed,
+     - if some ORDER BY column has to be rejected in the header of the result (sort_must_reject: unknown, or
+       unqualified and ambiguous - SelectObs.must_reject), Go must refuse (an error value, no rows);
+     - otherwise Go must return rows that check_agg accepts against that input, under the declarative header,
+       sorted by the ORDER BY keys (when every key names exactly one column);
+   other queries are outside C07 and accepted. sm_c07_lenient is the same with the lenient cell test (an AVG
+   cell of a group of three or more rows only has to be an integer). mm_select is the comparison of Go's answer
+   with `select`.
+
+   Hypotheses (booleans on the case, Proofs/SelectOracle.v):
+     hyp_c07  = db_wf d (tables as storage.Fetch returns them: needed for ORDER BY on the result)
+     f8b_free = no avg() in the select list, or every group of the declarative input has at most two rows.
+                This excludes exactly the recorded finding F8b (C07_avg_refuted: AVG is a running rounded
+                average); the oracle sm_c07 rejects the model there, rightly (C07_agreement_needs_f8b_free).
+   Under hyp_c07 alone agreement implies acceptance by sm_c07_lenient - COUNT, grouping, AVG over at most two
+   rows, refusal of unresolvable ORDER BY columns, for ALL aggregate queries; under hyp_c07 and f8b_free it
+   implies acceptance by sm_c07.
+   The link to the theorems above: select_core = agg_run on a permutation of the declarative input (the model's
+   join order) followed by the resolution of the sort keys, C07_model_meets_spec_partial / C07_no_avg_meets_spec
+   on that permutation, and AggSpec(Lenient) depends neither on the order of the input rows nor on the order of
+   the result rows. *)
+From Mkdb Require Import Spec.SelectObs Proofs.SelectOracle.
+
+Theorem C07_agreement_implies_acceptance : forall c,
+  hyp_c07 c = true -> f8b_free c = true -> mm_select c = true -> sm_c07 c = true.
+Proof. exact c07_agreement_implies_acceptance. Qed.
+Print Assumptions C07_agreement_implies_acceptance.
+
+Theorem C07_agreement_implies_lenient_acceptance : forall c,
+  hyp_c07 c = true -> mm_select c = true -> sm_c07_lenient c = true.
+Proof. exact c07_agreement_implies_lenient_acceptance. Qed.
+Print Assumptions C07_agreement_implies_lenient_acceptance.
+
+(* non-vacuity: the grouped query nv_sl / nv_gb over a table, ORDER BY k DESC (two groups tie on k = 1), with
+   AVG over groups of two rows: Go returns the tie group in the other order; the case is in the oracle's scope
+   (wt_c07), agrees and is accepted; with a count changed it neither agrees nor is accepted *)
+Definition ag_db : db := [("t", ["a"; "b"; "c"], nv_base)].
+Definition ag_q : select_stmt :=
+  mkSelect nv_sl [TRName "t" None] None nv_gb [mkSort (mkCol "" "k") SDesc] false false 0 0.
+Definition ag_hdr : list field := [("", "count(*)"); ("t", "k"); ("t", "b"); ("", "count(c)"); ("", "avg(b)")].
+
+Example C07_agreement_nonvacuous :
+  let good := (ag_db, ag_q, GOk ag_hdr [[VInt 2; VInt 12; VInt 3; VInt 1; VInt 3]; [VInt 1; VInt 1; VInt 2; VInt 0; VInt 2];
+                                        [VInt 2; VInt 1; VInt 23; VInt 1; VInt 23]]) in
+  let bad := (ag_db, ag_q, GOk ag_hdr [[VInt 2; VInt 12; VInt 3; VInt 1; VInt 3]; [VInt 1; VInt 1; VInt 2; VInt 0; VInt 2];
+                                       [VInt 2; VInt 1; VInt 23; VInt 2; VInt 23]]) in
+  hyp_c07 good = true /\ f8b_free good = true /\ no_avg (sel_list ag_q) = false /\ wt_c07 good = true /\
+  mm_select good = true /\ sm_c07 good = true /\ mm_select bad = false /\ sm_c07 bad = false.
+Proof. vm_compute. repeat split; reflexivity. Qed.
+
+(* an aggregate over a RIGHT join (the model's row order is not the declarative one), AVG over a group of six
+   rows: outside f8b_free, inside the lenient theorem *)
+Definition ag_db2 : db :=
+  [("t", ["a"; "b"; "c"], nv_base); ("u", ["a"; "z"], [[VInt 1; VInt 5]; [VInt 1; VInt 6]; [VInt 7; VInt 7]])].
+Definition ag_q2 : select_stmt :=
+  mkSelect [mkDC (SPExpr (EVal (XCol (mkCol "t" "a")))) "k"; mkDC (SPCount None) ""; mkDC (SPCount (Some (mkCol "t" "c"))) "n";
+            mkDC (SPAvg (mkCol "u" "z")) ""]
+           [TRJoin (TRName "t" None) JRight (TRName "u" None) (EPred (XCol (mkCol "t" "a")) CEq (XCol (mkCol "u" "a")))]
+           None [mkCol "" "k"] [mkSort (mkCol "" "n") SAsc] false false 0 0.
+
+Example C07_agreement_nonvacuous_join :
+  let c := (ag_db2, ag_q2, GOk [("t", "k"); ("", "count(*)"); ("", "n"); ("", "avg(u.z)")]
+                               [[VNull; VInt 1; VInt 0; VInt 7]; [VInt 1; VInt 6; VInt 2; VInt 5]]) in
+  hyp_c07 c = true /\ f8b_free c = false /\ wt_c07 c = true /\ mm_select c = true /\ sm_c07_lenient c = true.
+Proof. vm_compute. repeat split; reflexivity. Qed.
+
+(* each hypothesis is needed: without it the oracle rejects the model's own behaviour.
+   (1) f8b_free: the witness of C07_avg_refuted. Here the oracle is RIGHT and the model (= the code) wrong:
+   this is the known finding F8b, and the only disagreement between sm_c07 and the model inside hyp_c07. *)
+Example C07_agreement_needs_f8b_free :
+  let c := ([("t", ["v"], w_base)], mkSelect w_sl [TRName "t" None] None [] [] false false 0 0, GOk [("", "avg(v)")] [[VInt 1]]) in
+  hyp_c07 c = true /\ f8b_free c = false /\ mm_select c = true /\ sm_c07 c = false /\ sm_c07_lenient c = true.
+Proof. vm_compute. repeat split; reflexivity. Qed.
+
+(* an ORDER BY column that is not in the result (and one that is ambiguous in it): the engine refuses
+   (ErrSortFieldNotFound / ErrFieldAmbiguous), model and Go agree, and the oracle accepts the refusal - it needs
+   no hypothesis on the sort keys; rows for such a query (here: the rows of the query without ORDER BY) neither
+   agree with the model nor are accepted *)
+Example C07_agreement_sort_key_refusal :
+  let q_unknown := mkSelect nv_sl [TRName "t" None] None nv_gb [mkSort (mkCol "" "nosuch") SAsc] false false 0 0 in
+  let sl2 := [mkDC (SPExpr (EVal (XCol (mkCol "" "a")))) "k"; mkDC (SPExpr (EVal (XCol (mkCol "" "b")))) "k"; mkDC (SPCount None) ""] in
+  let q_ambig := mkSelect sl2 [TRName "t" None] None [mkCol "" "a"; mkCol "" "b"] [mkSort (mkCol "" "k") SAsc] false false 0 0 in
+  let c1 := (ag_db, q_unknown, GErr ESortFieldNotFound) in
+  let c2 := (ag_db, q_ambig, GErr EFieldAmbiguous) in
+  let rows := (ag_db, q_unknown, GOk ag_hdr [[VInt 2; VInt 1; VInt 23; VInt 1; VInt 23]; [VInt 2; VInt 12; VInt 3; VInt 1; VInt 3];
+                                             [VInt 1; VInt 1; VInt 2; VInt 0; VInt 2]]) in
+  hyp_c07 c1 = true /\ f8b_free c1 = true /\ wt_c07 c1 = true /\ mm_select c1 = true /\ sm_c07 c1 = true /\ sm_c07_lenient c1 = true /\
+  hyp_c07 c2 = true /\ wt_c07 c2 = true /\ mm_select c2 = true /\ sm_c07 c2 = true /\
+  mm_select rows = false /\ sm_c07 rows = false /\ sm_c07_lenient rows = false.
+Proof. vm_compute. repeat split; reflexivity. Qed.
+
+(* (2) db_wf: a grouping column holding an int and a string under ORDER BY: the sort comparison panics *)
+Example C07_agreement_needs_db_wf :
+  let c := ([("t", ["a"], [[VInt 1]; [VStr "x"]])],
+            mkSelect [mkDC (SPExpr (EVal (XCol (mkCol "" "a")))) ""; mkDC (SPCount None) ""] [TRName "t" None] None
+                     [mkCol "" "a"] [mkSort (mkCol "" "a") SAsc] false false 0 0, GPanic) in
+  hyp_c07 c = false /\ f8b_free c = true /\ wt_c07 c = true /\ mm_select c = true /\ sm_c07 c = false.
+Proof. vm_compute. repeat split; reflexivity. Qed.
